@@ -609,4 +609,34 @@ def attemptSlots (held : Nat) : List AttemptExit → Nat
   | [] => held
   | _ :: rest => attemptSlots held rest      -- +1 at launch, −1 on every exit
 
+/-! ## 13. the TCP engine's two slab classes -/
+
+/-- `largeClass(length)`: the class of the slab `acquire` leases, and (it must
+be the same) of the admission token `tokens` picks -/
+def tcpLarge (smallFrame length : Nat) : Bool := length > smallFrame
+
+/-- admission tokens at home (small, large) -/
+structure Tokens where
+  small : Nat
+  large : Nat
+deriving DecidableEq, Repr
+
+/-- one frame served on a connection: `acquire` takes a token of the class
+`tokenLarge length`, `put` returns one to the class of the slab,
+`slabLarge length`; `cap` are the channel capacities: a `put` into a full
+channel parks the connection goroutine for ever (`none`). -/
+def serveFrameTokens (tokenLarge slabLarge : Nat → Bool) (cap t : Tokens) (length : Nat) : Option Tokens :=
+  let taken : Option Tokens :=
+    if tokenLarge length then (if t.large = 0 then none else some { t with large := t.large - 1 })
+    else (if t.small = 0 then none else some { t with small := t.small - 1 })
+  match taken with
+  | none => none
+  | some t' =>
+    if slabLarge length then (if t'.large + 1 > cap.large then none else some { t' with large := t'.large + 1 })
+    else (if t'.small + 1 > cap.small then none else some { t' with small := t'.small + 1 })
+
+/-- per-frame budget on a TCP connection: every frame is stamped when ITS
+length prefix is read, so its deadline is that instant + QueryTimeout -/
+def frameDeadline (prefixRead qto : Nat) : Nat := prefixRead + qto
+
 end SdnsVerif.Model.OneReply
